@@ -864,6 +864,15 @@ add({"name": "space_add_initial_gap", "file": "dfs/cmd_space.cc",
                (r"root\.disc_format\(\)", "root->disc_format", ">=0"), (r"root\.catalog_sectors\(\)", "SpaceRoot_catalog_sectors(root)", ">=0"),
                (r"\bmaybe_gap\(", "space_maybe_gap_v(", 1)]})
 
+add({"name": "space_start_sec_of_next", "file": "dfs/cmd_space.cc",
+     "anchor": r"\(unsigned int catalog, unsigned int entry\) -> DFS::sector_count_type",
+     "sig": "static sector_count_type space_start_sec_of_next(const struct SpaceRoot *root, unsigned int catalog, unsigned int entry)",
+     "rules": [(r"\bassert\(", "VERIF_ASSERT(", ">=0"),
+               (r"catalogs\[([^\]]*)\]\.back\(\)\.start_sector\(\)", r"CatalogEntry_start_sector(cats_back(\1))", ">=1"),
+               (r"catalogs\[([^\]]*)\]\[([^\]]*)\]\.start_sector\(\)", r"CatalogEntry_start_sector(cats_at(\1, \2))", ">=1"),
+               (r"catalogs\[([^\]]*)\]\.size\(\)", r"cat_size(\1)", ">=0"), (r"catalogs\[([^\]]*)\]\.empty\(\)", r"(cat_size(\1) == 0)", ">=0"),
+               (r"catalogs\.size\(\)", "cats_n", ">=1"), (r"root\.total_sectors\(\)", "root->total_sectors", ">=1"),
+               (r"\bauto (\w+) =", r"unsigned int \1 =", ">=0")]})
 add({"name": "space_entry_gap", "file": "dfs/cmd_space.cc",
      "anchor": r"(?:auto last_sec = catalogs\[c\]\[entry\]\.last_sector\(\);|const DFS::CatalogEntry& ce\(catalogs\[c\]\[entry\]\);)",
      "region_end": r"\}\s*\}\s*\}\s*if \(!added_initial_gap\)",
@@ -898,6 +907,20 @@ add({"name": "opus_volume_extents", "file": "dfs/opus_cat.cc",
                (r"it->set_next_sector\(([^;]*)\);", r"VolumeLocation_set_next_sector(it, \1);", 1),
                (r"std::ostringstream os;.*?throw DFS::BadFileSystem\(os\.str\(\)\);", "{ VERIF_THROW(BadFileSystem, 0); return; }", 1)],
      "dropped": ["diagnostic text"]})
+
+# ---- dfs_catalog.cc (C02: title, cycle number, boot option; C14: the catalogue's total sector count) ------------------------
+add({"name": "convert_title", "file": "dfs/dfs_catalog.cc", "anchor": r"std::string convert_title\(const DFS::SectorBuffer& s0,\s*const DFS::SectorBuffer& s1\)",
+     "sig": "static struct cstr convert_title(const SectorBuffer *s0, const SectorBuffer *s1)",
+     "rules": [(r"std::string title;", "struct cstr title; title.n = 0;", 1), (r"\bs([01])\[", r"s\1->d[", ">=2"),
+               (r"title\.push_back\(([^;]*)\);", r"cstr_push(&title, \1);", ">=1"),
+               (r"return DFS::stringutil::rtrim\(title\);", "return cstr_rtrim(title);", 1)]})
+add({"name": "CatalogFragment_ctor", "file": "dfs/dfs_catalog.cc",
+     "anchor": r"const DFS::byte title_initial\(names\[0\]\);", "region_end": r"for \(int pos = 8; pos <= position_of_last_catalog_entry_; pos \+= 8\)",
+     "sig": "static void CatalogFragment_ctor(struct CatalogFragmentM *self, const SectorBuffer *names, const SectorBuffer *metadata)",
+     "pre": "#define sequence_number_ (self->sequence_number_)\n#define position_of_last_catalog_entry_ (self->position_of_last_catalog_entry_)\n#define boot_ (self->boot_)\n#define total_sectors_ (self->total_sectors_)\n#define disc_format_ (self->disc_format_)\n",
+     "post": "#undef sequence_number_\n#undef position_of_last_catalog_entry_\n#undef boot_\n#undef total_sectors_\n#undef disc_format_\n",
+     "rules": [(r"const DFS::byte title_initial\(names\[0\]\);", "const byte title_initial = names->d[0];", 1),
+               (r"\b(names|metadata)\[", r"\1->d[", ">=1"), (r"BootSetting::(\w+)", r"BootSetting_\1", ">=4"), (r"Format::(\w+)", r"Format_\1", ">=1")]})
 
 # ---- cmd_cat.cc (C02: "current directory first, then by directory and name, case-insensitively") ---------------------
 add({"name": "cat_mapdir", "file": "dfs/cmd_cat.cc", "anchor": r"\[&ctx\] \(char dir\) -> char",
